@@ -88,7 +88,7 @@ func TestC12SlowHandlers(t *testing.T) {
 						}
 						for k := 0; k < 2; k++ {
 							id++
-							ebu.Publish(bus, tA{id})
+							ebu.Publish(bus, tA{ID: id})
 							bus.Wait() // one at a time: the order of async deliveries is not this part's subject
 						}
 					}
